@@ -1,4 +1,4 @@
-package edi
+package idr
 
 import (
 	"errors"
